@@ -475,6 +475,12 @@ def run(facts, cg):
             finding(b.q, 'dict-params', 'chunker_params does not come from the ChunkerParameters value built above')
         if not has_field(d['chunk_compression'], 'compression'):
             finding(b.q, 'dict-compression', 'chunk_compression is not derived from the compression option (%s)' % show(d['chunk_compression'])[:80])
+        else:
+            from .r_readerwiring import altered
+            why = altered(d['chunk_compression'])
+            if why:
+                finding(b.q, 'dict-compression', 'the compression recorded in the dictionary is not the requested one as it is: it passes through %s (%s) - '
+                        'the archive then says something else than what was asked for' % (why, show(d['chunk_compression'])[:80]))
         # source size / checksum / order / descriptors: resolve to the locals of the pipeline body and check their updates
         for fld, want_call, what in (('source_total_size', None, 'size'), ('source_checksum', 'finalize', 'checksum'),
                                      ('rebuild_order', 'collect', 'order'), ('chunk_descriptors', None, 'descriptors')):
